@@ -85,7 +85,7 @@ RENDER_EXPAND = _os.environ.get("MPSA_RENDER_EXPAND", "1") in ("1", "all")
 RENDER_EXPAND_ALL = _os.environ.get("MPSA_RENDER_EXPAND", "1") == "all"
 _RENDER_DEFAULT = RENDER_EXPAND
 # rules whose tables were frozen against the unexpanded text (locals by name); everything else sees stable locals expanded
-RAW_RENDER_RULES = {"C01.X1", "C06.G1", "C06.R1", "C01.H2", "C01.K1", "C01.K2", "C01.L1", "C01.P2", "C04.T1", "C05.T2", "C06.B1", "C07.G1", "C07.H1", "C07.P2",
+RAW_RENDER_RULES = {"C01.X1", "C06.G1", "C06.R1", "C01.H2", "C01.K1", "C01.K2", "C01.L1", "C01.P2", "C04.T1", "C05.T2", "C06.B1", "C07.H1",
                     "C10.U1", "C11.V1", "C13.D1", "C19.S1", "C20.P1", "C20.P3"}
 
 
@@ -988,3 +988,200 @@ def reach_calls(F, f, want, depth=2):
         binding = {p["declId"]: strip(a) for p, a in zip(g.params, args)}
         for _, c2, res2 in reach_calls(F, g, want, depth - 1):
             yield c, c2, (lambda e, res2=res2, binding=binding: _subst_params(res2(e), binding))
+
+
+class _CaseReturn(Exception):
+    def __init__(self, node):
+        self.node = node
+
+
+def eval_cases(f, names, atom, on_return, max_cases=256):
+    """Truth-table evaluation of a small decision function, independent of how its conditions are nested.
+    For every assignment of True/False to `names` the body of f is executed structurally (blocks, if/else, early
+    returns, ternaries); conditions are decomposed over !, &&, ||, the comma operator and stable locals (expanded)
+    down to atoms; atom(text, node) returns a name, a (name, True) pair for the negation of a name, a bool, or None
+    (unknown -> AnalysisBroken).  on_return(expr_node, value_of) is called with the returned expression and a function
+    evaluating any condition expression under the current assignment.  Returns {assignment tuple: result}."""
+    from .facts import AnalysisBroken
+    import itertools
+    if 2 ** len(names) > max_cases:
+        raise AnalysisBroken("eval_cases: too many atoms")
+
+    def cond(n, env):
+        n = strip(expand_locals(f, n, 0, True))
+        if n is None:
+            raise AnalysisBroken("eval_cases: empty condition")
+        k = n["k"]
+        if k == "CXXBoolLiteralExpr":
+            return str(n.get("v")).lower() in ("true", "1")
+        if k == "UnaryOperator" and n.get("op") == "!":
+            return not cond(kids(n)[0], env)
+        if k == "BinaryOperator" and n.get("op") in ("&&", "||"):
+            a = cond(kids(n)[0], env)
+            if n["op"] == "&&":
+                return a and cond(kids(n)[1], env)
+            return a or cond(kids(n)[1], env)
+        if k == "BinaryOperator" and n.get("op") == ",":
+            return cond(kids(n)[1], env)
+        if k == "ConditionalOperator":
+            c, a, b = kids(n)
+            return cond(a if cond(c, env) else b, env)
+        t = render(n).replace(" ", "").replace("this->", "").replace("std::", "")
+        r = atom(t, n)
+        if isinstance(r, bool):
+            return r
+        if isinstance(r, tuple):
+            return not env[r[0]]
+        if r in env:
+            return env[r]
+        raise AnalysisBroken("eval_cases: condition `%s` of %s is not one of the expected tests" % (render(n)[:70], f.name))
+
+    def run(stmts, env):
+        for s in stmts:
+            if s is None:
+                continue
+            k = s["k"]
+            if k == "CompoundStmt":
+                run(kids(s), env)
+            elif k == "IfStmt":
+                ch = [x for x in s["c"] if x is not None]
+                if cond(ch[0], env):
+                    run([ch[1]], env)
+                elif len(ch) > 2:
+                    run([ch[2]], env)
+            elif k == "ReturnStmt":
+                raise _CaseReturn(kids(s)[0] if kids(s) else None)
+            # declarations and expression statements have no influence on the decision (locals are looked through)
+    body = [x for x in (f.roots or []) if x is not None and x["k"] == "CompoundStmt"]
+    if not body:
+        raise AnalysisBroken("eval_cases: %s has no body" % f.name)
+    out = {}
+    for vals in itertools.product((False, True), repeat=len(names)):
+        env = dict(zip(names, vals))
+        try:
+            run(kids(body[-1]), env)
+            out[vals] = on_return(None, lambda e, env=env: cond(e, env))
+        except _CaseReturn as r:
+            out[vals] = on_return(r.node, lambda e, env=env: cond(e, env))
+    return out
+
+
+class MiniInt:
+    """Concrete evaluation of small integer/boolean code for case tables: literals, locals, parameters, arithmetic,
+    bitwise, relational and logical operators, ?:, assignments and compound assignments, declarations, if/else, return,
+    and calls - first offered to atom(text, node, env) (return None to decline), then inlined when the callee body is
+    exported.  Nothing of the program under analysis is run; the interpreter walks the AST."""
+
+    def __init__(self, F, atom, max_depth=3):
+        self.F, self.atom, self.max_depth = F, atom, max_depth
+
+    def expr(self, n, env, depth=0):
+        from .facts import AnalysisBroken
+        n = strip(n)
+        k = n["k"]
+        if k in ("IntegerLiteral", "CharacterLiteral"):
+            return int(n["v"])
+        if k == "CXXBoolLiteralExpr":
+            return int(str(n.get("v")).lower() in ("true", "1"))
+        if k == "DeclRefExpr" and n.get("declId") in env:
+            return env[n["declId"]]
+        if "cv" in n and k not in ("DeclRefExpr", "MemberExpr"):
+            try:
+                return int(n["cv"])
+            except ValueError:
+                pass
+        if k == "DeclRefExpr" and n.get("dk") == "EnumConst" and "cv" in n:
+            return int(n["cv"])
+        if k not in ("UnaryOperator", "BinaryOperator", "CompoundAssignOperator", "ConditionalOperator"):
+            t = render(n).replace(" ", "").replace("this->", "")
+            r = self.atom(t, n, env)
+            if r is not None:
+                return int(r)
+        if k == "UnaryOperator":
+            op = n.get("op")
+            if op in ("++", "--"):
+                tgt = strip(kids(n)[0])
+                old = env[tgt["declId"]]
+                env[tgt["declId"]] = old + (1 if op == "++" else -1)
+                return old if n.get("postfix") else env[tgt["declId"]]
+            v = self.expr(kids(n)[0], env, depth)
+            return {"!": int(not v), "-": -v, "~": ~v, "+": v}[op]
+        if k == "BinaryOperator":
+            op = n["op"]
+            a_, b_ = kids(n)
+            if op == "=":
+                v = self.expr(b_, env, depth)
+                env[strip(a_)["declId"]] = v
+                return v
+            if op == "&&":
+                return int(bool(self.expr(a_, env, depth)) and bool(self.expr(b_, env, depth)))
+            if op == "||":
+                return int(bool(self.expr(a_, env, depth)) or bool(self.expr(b_, env, depth)))
+            if op == ",":
+                self.expr(a_, env, depth)
+                return self.expr(b_, env, depth)
+            x, y = self.expr(a_, env, depth), self.expr(b_, env, depth)
+            return {"+": lambda: x + y, "-": lambda: x - y, "*": lambda: x * y, "&": lambda: x & y, "|": lambda: x | y, "^": lambda: x ^ y,
+                    "<<": lambda: x << y, ">>": lambda: x >> y, "<": lambda: int(x < y), ">": lambda: int(x > y), "<=": lambda: int(x <= y),
+                    ">=": lambda: int(x >= y), "==": lambda: int(x == y), "!=": lambda: int(x != y),
+                    "/": lambda: int(x / y) if y else 0, "%": lambda: x - int(x / y) * y if y else 0}[op]()
+        if k == "CompoundAssignOperator":
+            tgt = strip(kids(n)[0])
+            x, y = env[tgt["declId"]], self.expr(kids(n)[1], env, depth)
+            op = n.get("op", "")[:-1]
+            env[tgt["declId"]] = {"|": x | y, "&": x & y, "+": x + y, "-": x - y, "^": x ^ y, "*": x * y}[op]
+            return env[tgt["declId"]]
+        if k == "ConditionalOperator":
+            c, a_, b_ = kids(n)
+            return self.expr(a_ if self.expr(c, env, depth) else b_, env, depth)
+        if k in ("CallExpr", "CXXMemberCallExpr") and depth < self.max_depth:
+            g = getattr(self.F, "_by_id", {}).get(n.get("calleeId"))
+            if g is not None and g.roots:
+                args = [self.expr(a, env, depth) if not self._opaque(a, env) else ("obj", a, env) for a in call_args(n)]
+                return self.call(g, args, depth + 1)
+        raise AnalysisBroken("MiniInt: expression `%s` outside the fragment" % render(n)[:70])
+
+    def _opaque(self, a, env):
+        a = strip(a)
+        ct = (a.get("ct") or "")
+        return not any(ct.replace("const ", "").strip() == x for x in ("int", "bool", "unsigned int", "long", "unsigned long", "char", "short", "double"))
+
+    def call(self, g, args, depth=0):
+        from .facts import AnalysisBroken
+        env = {p["declId"]: v for p, v in zip(g.params, args)}
+        body = [x for x in g.roots if x is not None and x["k"] == "CompoundStmt"]
+        try:
+            self.run(kids(body[-1]), env, depth)
+        except _CaseReturn as r:
+            return r.node
+        raise AnalysisBroken("MiniInt: %s has a path without a return" % g.name)
+
+    def run(self, stmts, env, depth=0, stop=None):
+        for s in stmts:
+            if s is None:
+                continue
+            if stop is not None and stop(s):
+                return True
+            k = s["k"]
+            if k == "CompoundStmt":
+                if self.run(kids(s), env, depth, stop):
+                    return True
+            elif k == "DeclStmt":
+                for v in kids(s):
+                    if v["k"] == "VarDecl":
+                        env[v["declId"]] = self.expr(kids(v)[0], env, depth) if kids(v) else 0
+            elif k == "IfStmt":
+                ch = [x for x in s["c"] if x is not None]
+                if self.expr(ch[0], env, depth):
+                    if self.run([ch[1]], env, depth, stop):
+                        return True
+                elif len(ch) > 2:
+                    if self.run([ch[2]], env, depth, stop):
+                        return True
+            elif k == "ReturnStmt":
+                raise _CaseReturn(self.expr(kids(s)[0], env, depth) if kids(s) else None)
+            elif k == "NullStmt":
+                pass
+            else:
+                self.expr(s, env, depth)
+        return False
